@@ -504,7 +504,31 @@ def _ops(r):
     return [o for o in [r.get("o"), r.get("a"), r.get("b")] + list(r.get("ops", [])) if isinstance(o, dict)]
 
 
+def r13(ctx):
+    R = "C09-R13"
+    ctx.rule(R, "the group table is keyed by (group address, port) and nothing else: join / leave build their key with SocketAddr::new(ip, port); the "
+                "lookup at send time must use a key built the same way - a destination written with an IPv6 scope id or flow label (link-local "
+                "multicast always carries a scope id) is otherwise a different key, the lookup finds no members and the datagram reaches nobody while send returns Ok")
+    G0 = "turmoil::net::udp::MulticastGroups::0"
+    n, bad = 0, []
+    for b in sorted(ctx.w.bodies.values(), key=lambda b: b.id):
+        if not b.id.startswith("turmoil::net::udp::MulticastGroups::"):
+            continue
+        for bb, t in b.calls(re.compile(r"IndexMap::(get|get_mut|entry|contains_key|swap_remove|shift_remove|insert|get_index_of)$")):
+            if not t["args"] or not _on_field(b, t["args"][0], G0):
+                continue
+            n += 1
+            at = Slicer(ctx.w).atoms(b, t["args"][1])
+            if "call:std::net::SocketAddr::new" not in at:
+                bad.append((b.id, t["f"].rsplit("::", 1)[1], t["s"]))
+    ctx.inst(R, "group-key:normalised", n >= 3 and not bad, bad[0][2] if bad else "", f"{n} accesses of the group table use keys built by SocketAddr::new(ip, port)" if n >= 3 and not bad else
+             (f"`{bad[0][0]}` accesses the group table ({bad[0][1]}) with the destination address as the caller wrote it, while join / leave key it by SocketAddr::new(ip, port): "
+              "a send to ff02::1%2 finds no members although they joined - no current member receives the datagram" if bad else f"only {n} keyed accesses of the group table found: re-derive"))
+    ctx.floor(R, 1)
+
+
 def run(ctx):
+    r13(ctx)
     r12(ctx)
     r11(ctx)
     r10(ctx)
